@@ -166,7 +166,8 @@ pub fn run_check(ctx: &Ctx) -> Outcome {
         "C15" => check_e1(ctx, Prop::C15, &mut out, 12000, 250000),
         "C11" => {
             run_nostd_child(ctx, &mut out);
-            check_tinylfu_c11(ctx, &mut out)
+            check_tinylfu_c11(ctx, &mut out);
+            check_c11_long(ctx, &mut out);
         }
         "C11x" => check_tinylfu(ctx, crate::e7::E7Prop::C11, &mut out, 1500, 40000, "generated TinyLFU configurations (size, samples, false-positive ratio, key hasher) x operation sequences over increment / increment_hashed_key / increment_keys / increment_hashed_keys / try_reset / clear / estimate* / contains* / lt..eq with raw hashes from a small alphabet plus 0, u64::MAX, 1<<32, 1<<63 and random values; 30% of the cases use a single key (exact equality with the aged-count model); non-trivial = at least one reset happened and at least one counter > 1 was halved; distinct by FNV-64 of the serialised case"),
         "C20" => check_sampled(ctx, crate::e7::E7Prop::C20, &mut out, 20000, 400000, "generated SampledLFU sequences (increment*, update*, remove*, clear, update_max_cost, fill_sample, room_left) over hashed keys from a small alphabet plus extremes and signed costs (mostly small, tail to +-2^40), max_cost small, wide or at the ends of the i64 range (expected value computed in i128, demanded when it fits); non-trivial = an increment on an already tracked key was followed by remove or room_left; distinct by FNV-64 of the serialised case"),
@@ -217,6 +218,12 @@ pub fn replay(prop: &str, engine: &str, case: &Value) -> Result<Option<Violation
                 check_2q_quota_grid_for(&ctx, &mut o, pid);
             }
             Ok(o.violations.first().map(|(_, m)| Violation { prop: pid, step: 0, msg: m.clone(), sig: format!("ctor/-/{}", engine) }))
+        }
+        "longwindow" => {
+            let ctx = Ctx { id: "C11".into(), tier: Tier::Thorough, seed: 1, verif_dir: std::env::var("VERIF_DIR").unwrap_or_else(|_| "/verif".into()), known: Default::default(), workers: 1, scale: 1.0 };
+            let mut o = Outcome::default();
+            check_c11_long(&ctx, &mut o);
+            Ok(o.violations.first().map(|(_, m)| Violation { prop: "C11", step: 0, msg: m.clone(), sig: "tinylfu/-/long-window".into() }))
         }
         "longrun" => {
             let ctx = Ctx { id: "C05".into(), tier: Tier::Thorough, seed: 1, verif_dir: std::env::var("VERIF_DIR").unwrap_or_else(|_| "/verif".into()), known: Default::default(), workers: 4, scale: 1.0 };
